@@ -41,6 +41,8 @@ func main() {
 		err = genLockFlow(os.Args[2], os.Args[3])
 	case "bodysinks":
 		err = genBodySinks(os.Args[2], os.Args[3])
+	case "register":
+		err = genRegister(os.Args[2], os.Args[3])
 	default:
 		err = fmt.Errorf("unknown translator %q", os.Args[1])
 	}
